@@ -579,7 +579,9 @@ func (e *Engine) externalModel(s *State, f *Frame, x *ssa.Call, name string, cal
 		} else {
 			strT = Fresh("str", SStr)
 		}
-		val := App("bigOfDecimal", SInt, strT)
+		valid0 := App("isDecimal", SBool, strT)
+		// on failure math/big leaves the receiver's value undefined
+		val := Ite(valid0, App("bigOfDecimal", SInt, strT), Fresh("setstring.undefined", SInt))
 		r := e.setBig(s, args[0], val, probe)
 		_ = okb
 		e.note("big.Int.SetString on a symbolic string: value is bigOfDecimal(s); nil on malformed input")
@@ -817,6 +819,31 @@ func (e *Engine) externalModel(s *State, f *Frame, x *ssa.Call, name string, cal
 			e.alt = &altResult{cond: cr.matchPred(st), val: VSlice{Off: Int64C(0), Len: Int64C(0), Cap: Int64C(0)}, facts: facts}
 		}
 		return VSlice{Obj: obj, Off: Int64C(0), Len: Int64C(int64(len(el))), Cap: Int64C(int64(len(el)))}, true
+	case "encoding/json.Unmarshal":
+		// the decoder is an assumed external: on success the target holds an arbitrary value of its Go type
+		iv, ok := args[1].(VIface)
+		var p VPtr
+		if ok {
+			p, ok = iv.V.(VPtr)
+		} else {
+			p, ok = args[1].(VPtr)
+		}
+		if !ok || p.Obj == nil {
+			panic(execError{"json.Unmarshal into a non-pointer"})
+		}
+		t := e.typeAtPath(p)
+		if t == nil {
+			panic(execError{"json.Unmarshal: cannot type the target"})
+		}
+		e.note("encoding/json.Unmarshal: assumed external; the target is havocked to an arbitrary value of its Go type, the error is arbitrary")
+		a := &absCtx{e: e, s: s}
+		nv := a.abstractValue(t, uniqueName("json"), nil)
+		for _, fc := range a.facts {
+			s.assume(fc)
+		}
+		e.recordWrite(s, probe, p)
+		e.store(s, p, nv, x.Pos())
+		return VIface{NilSym: Fresh("json.errnil", SBool)}, true
 	case "strings.Split":
 		st, sep := args[0].(VStr).T, args[1].(VStr).T
 		e.note("strings.Split / strings.TrimSpace: uninterpreted (splitlen, splitpiece, trimspace); contracts state what they need about the pieces as an explicit premise")
@@ -905,13 +932,9 @@ func mergeNilPtr(valid *Term, p Value) Value {
 	if valid.IsTrue() {
 		return p
 	}
-	return VGuardedPtr{Valid: valid, P: p.(VPtr)}
-}
-
-// VGuardedPtr is a pointer that is nil unless Valid holds.
-type VGuardedPtr struct {
-	Valid *Term
-	P     VPtr
+	q := p.(VPtr)
+	q.Valid = valid
+	return q
 }
 
 func (e *Engine) divisorNonZero(s *State, b *Term) {
